@@ -29,7 +29,7 @@ def families(tier):
     slacks = (0, 2) if q else (0, 1, 3)
     others = [(0, -1), (0, 2), (1, 0), (1, 1), (2, 0)] + ([] if q else [(3, 0), (2, 2)])
     units = ['mbuff.c', 'obj.c', 'str.c', 'strings.c', 'debug.c']
-    cap = (120, 8) if q else (400, 14)
+    cap = (120, 3) if q else (400, 12)
     f = Family('step', 'c07_mbuff.c', units=units, stubs=['msgs_stub.c', 'libc_models.c'], unwind=L + 6, cap=cap)
     P = 'C07/mbuff/'
     for s in states(L, slacks):
